@@ -125,6 +125,11 @@ class NativeMaster:
         self.rdata_stalled_with_valid = 0
         # payload signals are don't-care while valid is low: a scrambling master drives random values on them then
         self.scramble_rng = None
+        # data_ahead = N: write data is queued up to N writes ahead of the commands (stream-style user ports only: "offers the
+        # data of a write no later than the write command itself" allows earlier)
+        self.data_ahead = 0
+        self._ahead_idx = 0
+        self._ahead = set()
 
     def idle(self):
         return (self.issued_all or self.stop) and not self.wq and not self.rq and not self._cmd_valid
@@ -235,8 +240,19 @@ class NativeMaster:
                         stmts += [port.cmd.valid.eq(1), port.cmd.we.eq(int(cur.we)), port.cmd.addr.eq(cur.addr)]
                         if self.use_last:
                             stmts.append(port.cmd.last.eq(int(cur.last)))
-                        if cur.we:
+                        if cur.we and id(cur) not in self._ahead:
                             self.wq.append(cur)
+            if self.data_ahead and not self.stop and self.mode == "fifo":
+                # queue the data of upcoming writes (in command order) before their commands are offered
+                self._ahead_idx = max(self._ahead_idx, i + (1 if cmd_valid else 0))
+                waiting = sum(1 for o in self.wq if o.offer is None and o is not cur)
+                while waiting < self.data_ahead and self._ahead_idx < len(ops):
+                    o = ops[self._ahead_idx]
+                    self._ahead_idx += 1
+                    if o.we:
+                        self._ahead.add(id(o))
+                        self.wq.append(o)
+                        waiting += 1
             if not cmd_valid and self._cmd_valid:
                 stmts.append(port.cmd.valid.eq(0))
             if not cmd_valid and self.scramble_rng is not None:
